@@ -108,6 +108,11 @@ class PipeRelay(Relay):
         log.stdio(p, stdin, stdout, stderr)
         log.exit(p)
         if p.returncode != 0:
+            # raise_error() is documented to receive strings.
+            if isinstance(stdout, bytes):
+                stdout = stdout.decode('utf-8', 'replace')
+            if isinstance(stderr, bytes):
+                stderr = stderr.decode('utf-8', 'replace')
             try:
                 self.raise_error(p.returncode, stdout, stderr)
             except (PermanentRelayError, TransientRelayError) as exc:
